@@ -109,6 +109,13 @@ ExtraDocs == <<
    Obj(<<T("Polygon"), C(Arr(<<Arr(<<P2(1,4), P2(3,4), P2(3,8), P2(1,8), P2(1,4)>>)>>)), <<"id", Num(1)>>>>),
    Obj(<<T("Feature"), <<"geometry", Obj(<<T("Polygon"), C(Arr(<<Arr(<<P2(1,1), P2(3,1), P2(3,8), P2(1,8), P2(1,1)>>)>>))>>)>>>>),
    Obj(<<T("GeometryCollection"), <<"geometries", Arr(<<PointD, Obj(<<T("Polygon"), C(Arr(<<Arr(<<P2(1,1), P2(3,1), P2(3,8), P2(1,8), P2(1,1)>>)>>))>>)>>)>>>>),
+   \* Circle features whose centre is next to a pole in two of the three number tables (token 7): the polygon approximation leaves
+   \* the valid range there, the Feature and its Point do not - RequireValid has nothing to reject
+   Obj(<<T("Feature"), <<"geometry", Obj(<<T("Point"), C(P2(7,7))>>)>>, CircleProps("km")>>),
+   Obj(<<T("FeatureCollection"), <<"features", Arr(<<Obj(<<T("Feature"), <<"geometry", Obj(<<T("Point"), C(P2(1,7))>>)>>, CircleProps("km")>>)>>)>>>>),
+   \* ... and next to the antimeridian (token 8 as longitude: 179.99999999999997 in one table)
+   Obj(<<T("Feature"), <<"geometry", Obj(<<T("Point"), C(P2(8,1))>>)>>, CircleProps("km")>>),
+   Obj(<<T("GeometryCollection"), <<"geometries", Arr(<<PointD, Obj(<<T("Feature"), <<"geometry", Obj(<<T("Point"), C(P2(8,4))>>)>>, CircleProps("km")>>)>>)>>>>),
    \* a ring that is a rectangle only if -0 and 0 are taken for the same number (tokens 2 and 0 in one number table): as a Rect it
    \* would be written back with the other zero
    Obj(<<T("Polygon"), C(Arr(<<Arr(<<P2(2,0), P2(4,0), P2(4,4), P2(0,4), P2(2,0)>>)>>))>>),
